@@ -34,6 +34,9 @@ func init() {
 }
 
 func runC02(w *World, r *Report) {
+	hrConcurrentAllowed(w, r, "R6")
+	hrOnErrorRecords(w, r, "R6")
+	hrToComparable(w, r, "R6")
 	hrLimiterRegisters(w, r, "R6")
 	hrDiscoveryRunOrder(w, r, "R5")
 	// the system flows of a quota are selected like any flow: the qualifier tables of C03.R4
